@@ -180,6 +180,7 @@ def run(ctx):
 
     # ------------------------------------------------------------------ R08.2
     r = ctx.rule("R08.2", "attribute names: every byte on which attribute_name_state leaves the name, and every byte on which before_attribute_name_state does not start an attribute, is rejected by Attribute::name_from_string", "E-AST + E-SM language inclusion", floor=2, exhaustive=True)
+    sm.clause_eq_case_insensitive(r, mir)
     f = idx.one("name_from_string", owner="Attribute")
     sets = byte_set_of_matches(f.node)
     leaving = set()
